@@ -520,6 +520,34 @@ PROPS["C20"] = dict(
 )
 
 
+def _add_fuzz(pid, src, variants, renames, quick, thorough, max_len=200):
+    """coverage-guided stage: the property's own case oracle compiled as a libFuzzer target (-DVF_FUZZ)
+    against fuzzer-instrumented variants; failures carry the property's case and replay in the default binary"""
+    defs = ["-DVF_FUZZ"] + ["-D%s_api=%s_api" % (a, b) for a, b in renames]
+    name = PROPS[pid]["default_binary"] + "fz"
+    PROPS[pid]["binaries"][name] = dict(src=[src], variants=variants, san="fuzz", defs=defs, libs=["-lrapidcheck", "-lidn2"])
+    PROPS[pid]["stages"].append(stage("fuzz", binary=name, kind="fuzz", runner=runners.run_fuzz, quick=quick, thorough=thorough, max_len=max_len, dict="fuzz/dict.txt"))
+    PROPS[pid]["rule"] += (" Coverage-guided stage: the same oracle as a libFuzzer target (16 workers, half seeded from data/*.txt, half from an empty corpus, "
+                           "dictionary of structural tokens), %d executions per worker quick / %d thorough." % (quick, thorough))
+    PROPS[pid]["technique"] += "; libFuzzer with the oracle inside the target"
+
+
+_D = [("dflt", "dfuzz")]
+_add_fuzz("C01", "props/c01.cpp", ["dfuzz"], _D, 15000, 1500000)
+_add_fuzz("C02", "props/c02.cpp", ["dfuzz"], _D, 60000, 4000000, max_len=120)
+_add_fuzz("C03", "props/c03.cpp", ["dfuzz"], _D, 60000, 4000000, max_len=120)
+_add_fuzz("C04", "props/c04.cpp", ["dfuzz"], _D, 30000, 2000000, max_len=300)
+_add_fuzz("C05", "props/c05.cpp", ["dfuzz"], _D, 30000, 2000000, max_len=120)
+_add_fuzz("C07", "props/c07.cpp", ["dfuzz"], _D, 15000, 1000000, max_len=120)
+_add_fuzz("C09", "props/c09.cpp", ["dfuzz"], _D, 30000, 2000000, max_len=300)
+_add_fuzz("C10", "props/c10.cpp", ["dfuzz"], _D, 10000, 1000000)
+_add_fuzz("C12", "props/c12.cpp", ["dfuzz"], _D, 15000, 1500000)
+_add_fuzz("C15", "props/c15.cpp", ["dfuzz"], _D, 15000, 1500000)
+_add_fuzz("C16", "props/c16.cpp", ["dfuzz", "efuzz"], _D + [("extra", "efuzz")], 10000, 1000000)
+_add_fuzz("C17", "props/c17.cpp", ["dfuzz"] + ["f%d%d%d" % (a, b, c) for a in (0, 1) for b in (0, 1) for c in (0, 1)],
+          _D + [("o%d%d%d" % (a, b, c), "f%d%d%d" % (a, b, c)) for a in (0, 1) for b in (0, 1) for c in (0, 1)], 5000, 500000, max_len=120)
+
+
 def stages_for(pid, tier):
     out = []
     for s in PROPS[pid]["stages"]:
